@@ -474,3 +474,205 @@ Proof.
     exists r0, b. repeat split; auto; lia.
   - apply IH. assumption.
 Qed.
+
+(* ------------------------------------------------------------------ C02 / C14 on the model: ID tables *)
+From FV Require Import PathProofs.
+
+(* what a router's table does with a destination identifier, and where that leads *)
+Definition table_of (ri : rinfo) (rname : string) : option (list rule) :=
+  option_map snd (find (fun p => str_eqb (fst p) rname) (ri_tables ri)).
+Definition table_port (ri : rinfo) (rname : string) (id : Z) : option Z :=
+  match table_of ri rname with
+  | Some rules => match filter (fun ru => matchesb ru id) rules with [ru] => Some (dest ru) | _ => None end
+  | None => None
+  end.
+Definition hop (c : compiled) (ri : rinfo) (rname : string) (id : Z) : option string :=
+  match find_crt c rname, table_port ri rname id with
+  | Some r, Some k => if k <? 0 then None else
+                      match nth_error (cr_out r) (Z.to_nat k) with Some (Some l) => Some (snd l) | _ => None end
+  | _, _ => None
+  end.
+(* follow the tables from node u towards the interface named tname with identifier id *)
+Fixpoint cwalk (fuel : nat) (c : compiled) (ri : rinfo) (tname : string) (id : Z) (u : string) : list string :=
+  match fuel with
+  | O => [u]
+  | S f => match hop c ri u id with
+           | Some nxt => u :: cwalk f c ri tname id nxt
+           | None => [u]
+           end
+  end.
+
+Lemma slot_index_nth l slots k : slot_index l slots = Some k -> exists l', nth_error slots k = Some (Some l') /\ link_eqb l l' = true.
+Proof.
+  revert k. induction slots as [|o r IH]; cbn [slot_index]; intros k H; [discriminate|].
+  destruct o as [z|].
+  - destruct (link_eqb l z) eqn:E.
+    + inversion H; subst. exists z. cbn. auto.
+    + destruct (slot_index l r) as [k'|]; [|discriminate]. inversion H; subst. destruct (IH k' eq_refl) as (l' & A & B).
+      exists l'. cbn. auto.
+  - destruct (slot_index l r) as [k'|]; [|discriminate]. inversion H; subst. destruct (IH k' eq_refl) as (l' & A & B).
+    exists l'. cbn. auto.
+Qed.
+Lemma link_eqb_eq a b : link_eqb a b = true -> a = b.
+Proof.
+  unfold link_eqb. destruct a, b; cbn. rewrite andb_true_iff. intros (A & B).
+  apply str_eqb_eq in A. apply str_eqb_eq in B. congruence.
+Qed.
+
+Lemma matchesb_iff r a : matchesb r a = true <-> matches r a.
+Proof. unfold matchesb, matches. lia. Qed.
+
+Lemma unique_match l a r : pdisj l -> In r l -> matches r a -> filter (fun ru => matchesb ru a) l = [r].
+Proof.
+  intros Hd Hin Hm.
+  assert (Hall : forall x, In x (filter (fun ru => matchesb ru a) l) -> x = r).
+  { intros x Hx. apply filter_In in Hx. destruct Hx as (Hx & Hmx). apply matchesb_iff in Hmx.
+    eapply pdisj_unique; eauto. }
+  assert (Hr : In r (filter (fun ru => matchesb ru a) l)) by (apply filter_In; split; [auto|apply matchesb_iff; auto]).
+  (* a list of copies of r, containing r, within a pairwise disjoint list, is [r] *)
+  induction l as [|y ys IH]; [destruct Hin|]. cbn [filter] in *. destruct Hd as (Hd1 & Hd2).
+  destruct (matchesb y a) eqn:Ey.
+  - assert (y = r) by (apply Hall; cbn; auto). subst y. f_equal.
+    destruct (filter (fun ru => matchesb ru a) ys) as [|z zs] eqn:F; [reflexivity|exfalso].
+    assert (Hz : In z (filter (fun ru => matchesb ru a) ys)) by (rewrite F; cbn; auto).
+    apply filter_In in Hz. destruct Hz as (Hz & Hmz). apply matchesb_iff in Hmz.
+    rewrite Forall_forall in Hd1. specialize (Hd1 z Hz). eapply disj_no_common; eauto.
+  - destruct Hin as [->|Hin]; [apply matchesb_iff in Hm; congruence|]. apply IH; auto.
+Qed.
+
+(* the table that gen_table builds sends the identifier of interface t to the port whose link leads to
+   the oracle's next hop *)
+Lemma gen_table_port sp c r tbl t id :
+  gen_table sp c r = Ok tbl -> In t (c_nis c) -> id_num (cn_id t) = Ok id ->
+  exists h nxt rest k ru,
+    sp (c_graph c) (cr_name r) (cn_name t) = Some (h :: nxt :: rest) /\
+    nth_error (cr_out r) k = Some (Some (cr_name r, nxt)) /\
+    filter (fun ru => matchesb ru id) tbl = [ru] /\ dest ru = Z.of_nat k.
+Proof.
+  unfold gen_table. intros H Ht Hid. inv_bind H.
+  destruct (mapM_In_l _ _ _ _ E Ht) as (ru & Hru & Eru). cbv beta in Eru.
+  destruct (sp (c_graph c) (cr_name r) (cn_name t)) as [[|h [|nxt rest]]|] eqn:Esp; try discriminate.
+  destruct (out_index r (cr_name r, nxt)) as [k|] eqn:Ek; [|discriminate].
+  rewrite Hid in Eru. cbn [bind] in Eru. inversion Eru; subst ru; clear Eru.
+  unfold out_index in Ek. destruct (slot_index_nth _ _ _ Ek) as (l' & Hn & Hl). apply link_eqb_eq in Hl. subst l'.
+  (* the untrimmed rules are non-empty ranges, pairwise disjoint since the constructor accepted them *)
+  assert (Hwf : Forall wf a).
+  { apply Forall_forall. intros x Hx. destruct (mapM_In _ _ _ _ E Hx) as (n0 & _ & En0). cbv beta in En0.
+    destruct (sp (c_graph c) (cr_name r) (cn_name n0)) as [[|? [|? ?]]|]; try discriminate.
+    destruct (out_index r _); [|discriminate]. destruct (id_num (cn_id n0)); [|discriminate].
+    inversion En0; subst; unfold wf; cbn; lia. }
+  unfold mk_map in E0. destruct (check_no_overlap a) eqn:Eo; [|discriminate]. inversion E0; subst a0; clear E0.
+  pose proof (proj1 (check_no_overlap_iff _ Hwf) Eo) as Hd.
+  destruct (trim_correct a Hwf Hd) as (t' & Ht' & Hdec & Hwf' & Hd' & _). rewrite H in Ht'. inversion Ht'; subst t'; clear Ht'.
+  assert (Hdec1 : decodes tbl id (Z.of_nat k)).
+  { apply Hdec. exists {| dest := Z.of_nat k; st := id; en := id + 1; sz := 1 |}. split; [exact Hru|].
+    split; [unfold matches; cbn; lia|reflexivity]. }
+  destruct Hdec1 as (q & Hq & Hmq & Hdq).
+  exists h, nxt, rest, k, q. split; [reflexivity|]. split; [exact Hn|]. split; [apply (unique_match tbl id q Hd' Hq Hmq)|exact Hdq].
+Qed.
+
+Lemma find_key_unique {A} (key : A -> string) (l : list A) x :
+  NoDup (map key l) -> In x l -> find (fun y => str_eqb (key y) (key x)) l = Some x.
+Proof.
+  induction l as [|y ys IH]; cbn [map find]; intros Hnd Hin; [destruct Hin|].
+  inversion Hnd as [|? ? Hni Hnd']; subst. destruct Hin as [->|Hin].
+  - replace (str_eqb (key x) (key x)) with true by (symmetry; apply str_eqb_eq; reflexivity). reflexivity.
+  - destruct (str_eqb (key y) (key x)) eqn:E; [|apply IH; auto].
+    apply str_eqb_eq in E. exfalso. apply Hni. rewrite E. apply in_map. exact Hin.
+Qed.
+
+Lemma mapM_keys {A V} (key : A -> string) (f : A -> res (string * V)) l l' :
+  mapM f l = Ok l' -> (forall x y, f x = Ok y -> fst y = key x) -> map fst l' = map key l.
+Proof.
+  intros H Hk. apply mapM_Forall2 in H. induction H as [|x y l l' Hxy _ IH]; cbn; [reflexivity|].
+  rewrite (Hk _ _ Hxy), IH. reflexivity.
+Qed.
+
+Definition is_router (c : compiled) (u : string) : Prop := exists r, In r (c_rts c) /\ cr_name r = u.
+
+(* one hop of the emitted tables = one hop of the oracle *)
+Lemma id_hop sp c ri t id r :
+  d_algo (c_desc c) = ID -> gen_routing_info sp c = Ok ri -> NoDup (map cr_name (c_rts c)) ->
+  In t (c_nis c) -> id_num (cn_id t) = Ok id -> In r (c_rts c) ->
+  exists h nxt rest, sp (c_graph c) (cr_name r) (cn_name t) = Some (h :: nxt :: rest) /\
+                     hop c ri (cr_name r) id = Some nxt.
+Proof.
+  intros Ha Hr Hnd Ht Hid Hin.
+  destruct (gri_inv _ _ _ Hr) as (_ & _ & _ & Htab & _). specialize (Htab Ha).
+  destruct (mapM_In_l _ _ _ _ Htab Hin) as (e & Hein & Ee). inv_bind Ee. inversion Ee; subst e; clear Ee.
+  destruct (gen_table_port _ _ _ _ _ _ E Ht Hid) as (h & nxt & rest & k & ru & Hsp & Hn & Hf & Hd).
+  exists h, nxt, rest. split; [exact Hsp|].
+  unfold hop, find_crt. rewrite (find_key_unique cr_name (c_rts c) r Hnd Hin).
+  unfold table_port, table_of.
+  assert (Hkeys : map fst (ri_tables ri) = map cr_name (c_rts c)).
+  { eapply mapM_keys; [exact Htab|]. intros x y Hy. cbv beta in Hy. inv_bind Hy. inversion Hy. reflexivity. }
+  assert (Hfind : find (fun p => str_eqb (fst p) (cr_name r)) (ri_tables ri) = Some (cr_name r, a)).
+  { assert (Hnd' : NoDup (map fst (ri_tables ri))) by (rewrite Hkeys; exact Hnd).
+    apply (find_key_unique fst (ri_tables ri) (cr_name r, a) Hnd' Hein). }
+  rewrite Hfind. cbn [option_map snd]. rewrite Hf, Hd.
+  destruct (Z.of_nat k <? 0) eqn:Ek; [lia|]. rewrite Nat2Z.id, Hn. reflexivity.
+Qed.
+
+Section IdDelivery.
+  Variables (sp : oracle) (c : compiled) (ri : rinfo) (t : cni) (id : Z).
+  Let g := c_graph c.
+  Let tname := cn_name t.
+  Definition g_edge (u v : string) : Prop := exists e, In e (g_edges g) /\ e_src e = u /\ e_dst e = v.
+  Let sp' (u : string) := sp g u tname.
+
+  Hypothesis Halgo : d_algo (c_desc c) = ID.
+  Hypothesis Hri : gen_routing_info sp c = Ok ri.
+  Hypothesis Ht : In t (c_nis c).
+  Hypothesis Hid : id_num (cn_id t) = Ok id.
+  (* the oracle returns shortest paths of the graph (networkx's documented contract) *)
+  Hypothesis sp_path : forall s p, sp' s = Some p -> path_to_t g_edge tname p s.
+  Hypothesis sp_min : forall s p q, sp' s = Some p -> path_to_t g_edge tname q s -> (length p <= length q)%nat.
+  Hypothesis sp_complete : forall s q, path_to_t g_edge tname q s -> sp' s <> None.
+  (* structure of the compiled graph: router names are unique and
+     shortest paths from a router run through routers only *)
+  Hypothesis Hnd : NoDup (map cr_name (c_rts c)).
+  Hypothesis Htransit : forall u p, is_router c u -> sp' u = Some p -> forall x, In x (removelast p) -> is_router c x.
+
+  Lemma sp_target : sp' tname = Some [tname].
+  Proof.
+    assert (Hp : path_to_t g_edge tname [tname] tname) by (repeat split; cbn; auto; discriminate).
+    destruct (sp' tname) as [p|] eqn:E; [|exfalso; eapply sp_complete; eauto].
+    pose proof (sp_min _ _ _ E Hp) as Hl. pose proof (sp_path _ _ E) as Hq.
+    destruct (path_head _ _ _ _ Hq) as (rest & ->). destruct rest; [reflexivity|cbn in Hl; lia].
+  Qed.
+
+  (* following the emitted tables is following the oracle *)
+  Theorem cwalk_is_follow : forall k u p,
+    (is_router c u \/ u = tname) -> sp' u = Some p -> length p = S k ->
+    cwalk k c ri tname id u = follow sp' k u.
+  Proof.
+    induction k as [|k IH]; intros u p Hu Hs Hl; [reflexivity|].
+    cbn [cwalk follow]. destruct Hu as [(r & Hr & <-)| ->].
+    - destruct (id_hop sp c ri t id r Halgo Hri Hnd Ht Hid Hr) as (h & nxt & rest & Hsp & Hhop).
+      fold g tname in Hsp. change (sp g (cr_name r) tname) with (sp' (cr_name r)) in Hsp.
+      rewrite Hhop, Hsp. f_equal.
+      rewrite Hs in Hsp. inversion Hsp; subst p.
+      destruct (next_shorter g_edge tname sp' sp_path sp_min sp_complete (cr_name r) nxt rest _ Hs
+                  ltac:(destruct (path_head _ _ _ _ (sp_path _ _ Hs)) as (rr & Er); inversion Er; reflexivity))
+        as (p' & Hn & Hlen).
+      apply (IH nxt p'); [|exact Hn|cbn [length] in *; lia].
+      destruct rest as [|x xs].
+      + (* nxt is the last node of the path: the destination *)
+        right. destruct (sp_path _ _ Hs) as (_ & _ & Hlast & _). cbn in Hlast. exact Hlast.
+      + left. apply (Htransit (cr_name r) _ ltac:(exists r; auto) Hs). cbn. auto.
+    - rewrite sp_target in Hs. inversion Hs; subst p. cbn in Hl. lia.
+  Qed.
+
+  (* C02 (request network) and C14: from any router the tables deliver to t in exactly the hop distance,
+     never visiting a node twice *)
+  Theorem id_tables_deliver r p k :
+    In r (c_rts c) -> sp' (cr_name r) = Some p -> length p = S k ->
+    let v := cwalk k c ri tname id (cr_name r) in
+    length v = S k /\ last v (cr_name r) = tname /\ NoDup v.
+  Proof.
+    intros Hr Hs Hl. cbv zeta. rewrite (cwalk_is_follow k (cr_name r) p (or_introl (ex_intro _ r (conj Hr eq_refl))) Hs Hl).
+    destruct (follow_delivers g_edge tname sp' sp_path sp_min sp_complete k _ p Hs Hl) as (A & B & _ & _).
+    repeat split; auto. eapply follow_nodup; eauto.
+  Qed.
+End IdDelivery.
+
